@@ -173,3 +173,82 @@ func boundsABodyRead(P *core.Program, v ssa.Value, seen map[ssa.Value]bool, dept
 	}
 	return nil
 }
+
+// ---------------------------------------------------------------------------
+// R77: bytes handed to the store are not recycled.
+//
+// C02: "what is uploaded is what is served, until overwritten or deleted".
+// Store.Add keeps the content slice it is given (the memory store stores the
+// slice itself).  A buffer that has been passed to Add therefore belongs to the
+// stored object: reslicing it to length zero for re-use (`buf[:0]` into a
+// sync.Pool, or as the start of the next upload's assembly buffer) lets a later
+// upload overwrite the bytes of an object stored under another name, while its
+// size and MD5 metadata stay what they were.  (Counterpart of R42 — bytes handed
+// *out* by the store are never appended to — and of R53 for sent gRPC buffers.)
+// Structural necessary condition: no `x[:0]` reslice of a variable or field that
+// also feeds the content argument of Store.Add.
+// ---------------------------------------------------------------------------
+
+func R77() Rule {
+	return Rule{Name: "R77", Run: func(c *core.Ctx) {
+		P := c.P
+		if P.SPkgs[core.PkgGcsemu] == nil {
+			return
+		}
+		// locations (fields, variables) whose content reaches Store.Add's content argument
+		var adds []*core.CallInfo
+		for _, fn := range P.SrcFuncs(core.PkgGcsemu) {
+			for _, ci := range core.AllCalls(fn) {
+				if isStoreCall(ci, "Add") && len(ci.Common.Args) >= 3 {
+					adds = append(adds, ci)
+				}
+			}
+		}
+		if len(adds) == 0 {
+			c.Unknown("R77", "floor/adds", token.NoPos, "no Store.Add call found")
+			return
+		}
+		feedsAdd := func(loc string) bool {
+			for _, a := range adds {
+				if flowsFrom(P, a.Common.Args[2], func(v ssa.Value) bool { return loadedLocation(v) == loc }, map[ssa.Value]bool{}, 0) {
+					return true
+				}
+			}
+			return false
+		}
+		n := 0
+		for _, fn := range P.SrcFuncs(core.PkgGcsemu) {
+			k := 0
+			for _, b := range fn.Blocks {
+				for _, in := range b.Instrs {
+					sl, ok := in.(*ssa.Slice)
+					if !ok || sl.High == nil {
+						continue
+					}
+					if hi, isC := core.ConstInt(sl.High); !isC || hi != 0 {
+						continue
+					}
+					if _, isSlice := sl.X.Type().Underlying().(*types.Slice); !isSlice {
+						continue
+					}
+					loc := loadedLocation(sl.X)
+					if loc == "" {
+						continue
+					}
+					n++
+					k++
+					c.Fn(core.FuncName(core.Root(fn)))
+					construct := fmt.Sprintf("%s/reslice-to-zero#%d", core.FuncName(core.Root(fn)), k)
+					if feedsAdd(loc) {
+						c.Bad("R77", construct, sl.Pos(), "this buffer is resliced to length zero for re-use although its contents are handed to Store.Add, which keeps the slice it is given (the memory store stores it as the object's content): the next user of the recycled buffer overwrites the bytes of an object that is already stored, under whatever name, while its size and MD5 stay unchanged")
+					} else {
+						c.Ok("R77", construct, sl.Pos(), true, "the recycled buffer never reaches Store.Add")
+					}
+				}
+			}
+		}
+		if n == 0 {
+			c.Ok("R77", "no-buffer-recycling", token.NoPos, false, "no buffer is resliced to length zero in the package (%d Store.Add sites)", len(adds))
+		}
+	}}
+}
